@@ -6,7 +6,8 @@
 (* retained (spec -> impl).                                                   *)
 EXTENDS FastCheck, TLC, Json
 
-CONSTANTS MaxRefs, Emit, ModRefs, NsAlias, AliasMods
+CONSTANTS MaxRefs, Emit, ModRefs, NsAlias, AliasMods,
+          StarMode     \* "any": a module may forward any other module; "chain": only e -> a -> b -> c
 
 Others(m) == Mods \ {m}
 ExportChoices == {"-"} \cup Names \cup {"default"}
@@ -16,7 +17,8 @@ RefChoices(d) == { S \in SUBSET ((Decls \ {d}) \cup AliasIds) : Cardinality(S) <
 
 \* per-module choices, filtered locally so that TLC never enumerates the product of ill-formed modules
 AliasChoices(m) == IF m \notin AliasMods THEN {<<>>} ELSE {<<>>} \cup { <<t, n>> : t \in Mods \ {m}, n \in Names \cup {"default"} \cup (IF NsAlias THEN {"*"} ELSE {}) }
-StarChoices(m) == {<<>>} \cup { <<t>> : t \in Mods \ {m} }
+ChainNext == [e |-> {"a"}, a |-> {"b"}, b |-> {"c"}, c |-> {}]
+StarChoices(m) == {<<>>} \cup { <<t>> : t \in (IF StarMode = "chain" THEN ChainNext[m] \cap Mods ELSE Mods \ {m}) }
 ModRefChoices(m) == IF ModRefs THEN { S \in SUBSET (Mods \ {m}) : Cardinality(S) <= 1 } ELSE {{}}
 LocalOk(m, c) ==
   /\ \A d1, d2 \in Decls : (d1 # d2 /\ c.exported[d1] # "-") => c.exported[d1] # c.exported[d2]       \* distinct export names
@@ -29,10 +31,12 @@ Dummy == [ exported |-> [d \in Decls |-> "-"], refs |-> [d \in Decls |-> {}], mo
 MC(m) == IF m \in Mods THEN ModChoices(m) ELSE {Dummy}
 \* an import alias names something its target really exports (otherwise the program does not type check)
 GlobalOk(p) == \A m \in Mods : \A a \in AliasIds : p.alias[m][a] # <<>> =>
-                  (p.alias[m][a][2] = "*" \/ p.alias[m][a][2] \in ({ p.exported[p.alias[m][a][1]][d] : d \in Decls } \ {"-"}))
+                  (p.alias[m][a][2] = "*" \/ p.alias[m][a][2] \in ({ p.exported[p.alias[m][a][1]][d] : d \in Decls } \ {"-"})
+                   \* ... or forwards through `export *` (evaluated on `prog`, which Init has bound to p by then)
+                   \/ (StarMode = "chain" /\ p.alias[m][a][2] # "default" /\ p.alias[m][a][2] \in ExportsOf(p.alias[m][a][1])))
 Init ==
-  /\ \E ce \in MC("e"), ca \in MC("a"), cb \in MC("b") :
-       LET all == [e |-> ce, a |-> ca, b |-> cb] IN
+  /\ \E ce \in MC("e"), ca \in MC("a"), cb \in MC("b"), cc \in MC("c") :
+       LET all == [e |-> ce, a |-> ca, b |-> cb, c |-> cc] IN
        /\ prog = [ exported |-> [m \in Mods |-> all[m].exported], refs |-> [m \in Mods |-> all[m].refs], modrefs |-> [m \in Mods |-> all[m].modrefs],
                    alias |-> [m \in Mods |-> all[m].alias], stars |-> [m \in Mods |-> all[m].stars] ]
        /\ GlobalOk(prog)
